@@ -45,6 +45,9 @@ use fx::rates::{FXRate, FXRates};
 
 // pub mod scheduling;
 
+#[cfg(feature = "verif-hooks")]
+pub mod verif_hooks;
+
 #[pymodule]
 fn rs(m: &Bound<'_, PyModule>) -> PyResult<()> {
     // JSON
